@@ -113,6 +113,28 @@ theorem cannot_extend_lost_window (s : St) (i : Nat) (c : Cont) (w : WKind) (f :
   have := (rejected_write_unchanged s i c w f hc hown).1
   simp only [s', this, and_self]
 
+/-- **idalloc_rejected** – the same for `Alloc`: a member that does not own the leader record and whose in-memory
+    id window is used up hands out no id, and nothing changes – neither the stored window nor its memory
+    (the memory is published only after the guarded transaction succeeded), under every fault flag -/
+theorem idalloc_rejected (s : St) (i : Nat) (c : Cont) (f : Fault)
+    (hc : s.conts[i]? = some c) (hmem : c.idBase = c.idEnd)
+    (hown : owns ⟨s.etcd, s.stamp, c⟩ .idRebase = false) :
+    (step s (.on i (.idalloc f))).1 = s ∧ ∀ n, (step s (.on i (.idalloc f))).2 ≠ .gotId n := by
+  have e : step0 s (.on i (.idalloc f)) = _ := step0_on s i c _ hc
+  have key : (loc ⟨s.etcd, s.stamp, c⟩ (.idalloc f)).1 = ⟨s.etcd, s.stamp, c⟩ ∧
+      ∀ n, (loc ⟨s.etcd, s.stamp, c⟩ (.idalloc f)).2 ≠ .gotId n := by
+    simp only [loc]
+    split
+    · exact ⟨rfl, by simp⟩
+    · simp only [hmem, beq_self_eq_true, if_true]
+      rw [writeStep_eq]
+      cases f <;> simp [hown]
+  constructor
+  · simp only [step, e, key.1]
+    rw [set_self _ _ _ hc]
+    exact fireWatchers_self s
+  · simp only [step_snd, e]; exact key.2
+
 /-- **resigned_serves_nothing** – after `Reset` (also while it is still waiting inside `lease.Close` for the
     Revoke request or its answer: `gresetl`), a step-down, a successful `DeleteLeaderKey` or a
     `CheckLeader` that deleted the member's own record, `Check()` is false, hence no timestamp is
@@ -386,7 +408,7 @@ theorem lease_structure :
     resetClosesLease = true ∧
     deleteThenReset = true := by decide
 
-/-- every leader-guarded write goes through the comparison with the leader record: LeaderTxn adds `Value(leaderKey) = leaderValue`; time window, member priority (set / delete), dc-location, encryption keys use LeaderTxn; the id window compares `Value(<root>/leader)` with the member value; the time window is published only after the transaction succeeded -/
+/-- every leader-guarded write goes through the comparison with the leader record: LeaderTxn adds `Value(leaderKey) = leaderValue`; time window, member priority (set / delete), dc-location, encryption keys use LeaderTxn; the id window compares `Value(<root>/leader)` with the member value; the time window and the in-memory id window are published only after the transaction succeeded -/
 theorem guarded_write_structure :
     leaderTxnAddsLeaderCmp = true ∧
     leaderCmpIsValueEq = true ∧
@@ -397,6 +419,7 @@ theorem guarded_write_structure :
     deleteDCLocationGuarded = true ∧
     idRebaseGuarded = true ∧
     idRebaseLeaderPath = true ∧
+    idRebasePersistsBeforePublishing = true ∧
     saveKeysGuarded = true := by decide
 
 /-- the service paths refuse when `Check()` / `IsLeader()` is false: GenerateTSO (global and local) checks first, getTS re-checks after generating, resetUserTimestamp checks, rotateKeyIfNeeded checks, validateRequest requires IsLeader, AllocID validates before allocating, the region-heartbeat stream validates every received message (before the stream re-bind block) and the store heartbeat validates before it is handled, IsLeader = Check ∧ cache -/
